@@ -170,6 +170,8 @@ structure Cfg where
   validNames : List String     -- `_as_dict_attrnames`
   noAccessAttrs : List String  -- names `as_dict` answers from the object itself (`pid`, the cached `create_time`)
   reuseAttrs : List String     -- valid names whose getter starts with `_raise_if_pid_reused()`
+  goneRefused : Bool           -- `_raise_if_pid_reused()` also raises NoSuchProcess once `_gone` is set
+  popGuarded : Bool            -- the drain loop survives `_pids_reused.pop()` on a set another thread emptied
 
 /-- a `psutil.Process` object -/
 structure PObj where
@@ -261,6 +263,51 @@ def pidExists (cfg : Cfg) (s : St) (n : Int) : St × Out :=
     else if cfg.rangeGuard && decide (m > pidTMax) then (s, .bool false)
     else (s, platformPidExists s.k m)
 
+/-! ### the platform functions on their own (callable as `psutil._psposix.pid_exists`,
+    `psutil._pslinux.pid_exists`), with the window between the `kill` probe and the status read -/
+
+/-- `_psposix.pid_exists(n)` for a non-negative int: PID 0 is answered True without a probe;
+    otherwise `os.kill(n, 0)`: ESRCH → False, EPERM → True, no error → True -/
+def posixPidExists (k : Kernel) (n : Nat) : Out :=
+  if n == 0 then .bool true
+  else
+    match k.kill n with
+    | .overflow => .exc "OverflowError"
+    | .esrch => .bool false
+    | .eperm => .bool true
+    | .ok => .bool true
+
+/-- `_pslinux.pid_exists(n)`: the POSIX probe, then — `mid` are the table changes that happen in
+    between — the `Tgid:` line of `/proc/<n>/status`; ValueError / OSError → `n in pids()` -/
+def linuxPidExists (k : Kernel) (n : Nat) (mid : List KEv) : Kernel × Out :=
+  match posixPidExists k n with
+  | .bool false => (k.applyAll mid, .bool false)
+  | .bool true =>
+    let k' := k.applyAll mid
+    match k'.readStatus n with
+    | .tgid t => (k', .bool (t == n))
+    | .noTgid | .oserror => (k', .bool (k'.listdir.contains n))
+  | o => (k.applyAll mid, o)
+
+/-- the argument of `psutil.pid_exists` as Python sees it: an int, a bool (an int subclass: it
+    compares and converts like 0 / 1), or a float (by sign; NaN and the infinities are `other`) -/
+inductive PyNum
+  | int (n : Int)
+  | bool (b : Bool)
+  | floatNeg          -- `x < 0`
+  | floatZero         -- `0.0`, `-0.0`
+  | floatOther        -- positive, NaN
+  deriving DecidableEq, Repr
+
+/-- `psutil.pid_exists(x)`: `x < 0` → False; `x == 0` → `x in pids()`; else the platform function,
+    whose `os.kill(x, 0)` refuses a float with TypeError -/
+def pidExistsArg (cfg : Cfg) (s : St) : PyNum → St × Out
+  | .int n => pidExists cfg s n
+  | .bool b => pidExists cfg s (if b then 1 else 0)
+  | .floatNeg => (s, .bool false)
+  | .floatZero => pidExists cfg s 0
+  | .floatOther => (s, .exc "TypeError")
+
 /-! ### `Process.is_running()` -/
 
 def St.setObj (s : St) (r : Ref) (o : PObj) : St := { s with objs := s.objs.set r o }
@@ -277,13 +324,15 @@ def isRunningObj (s : St) (r : Ref) (o : PObj) : St × Bool :=
       if id == o.ident then (s, true)
       else ({ s.setObj r { o with gone := true, reused := true } with flagged := addFlag s.flagged o.pid }, false)
 
-/-- `_raise_if_pid_reused()`: does it raise NoSuchProcess? -/
-def raiseIfReused (s : St) (r : Ref) (o : PObj) : St × Bool :=
+/-- `_raise_if_pid_reused()`: does it raise NoSuchProcess?
+    `if self._pid_reused or (not self.is_running() and self._pid_reused): raise …`, then (since the
+    "seen gone" repair, fact `goneRefused`) `if self._gone: raise …` -/
+def raiseIfReused (cfg : Cfg) (s : St) (r : Ref) (o : PObj) : St × Bool :=
   if o.reused then (s, true)
   else
     let (s', running) := isRunningObj s r o
     match s'.objs[r]? with
-    | some o' => (s', !running && o'.reused)
+    | some o' => (s', (!running && o'.reused) || (cfg.goneRefused && o'.gone))
     | none => (s', false)
 
 /-! ### `Process.as_dict(attrs)` as used by `process_iter` -/
@@ -306,7 +355,7 @@ def asDictLoop (cfg : Cfg) (r : Ref) (pid : Nat) : St → List String → St × 
       match s.objs[r]? with
       | none => (s, false)
       | some o =>
-        let (s1, raised) := raiseIfReused s r o
+        let (s1, raised) := raiseIfReused cfg s r o
         if raised then (s1, false)
         else if (s1.k.statStart pid).isSome then asDictLoop cfg r pid s1 rest else (s1, false)
 
@@ -444,5 +493,65 @@ def runAll (cfg : Cfg) (s : St) : List Op → St
 def trace (cfg : Cfg) (s : St) : List Op → List Out
   | [] => []
   | op :: ops => (step cfg s op).2 :: trace cfg (step cfg s op).1 ops
+
+/-! ## the values `as_dict` stores: `ad_value` substitution
+
+    `for name in ls: try: ret = getter() except (AccessDenied, ZombieProcess): ret = ad_value
+     except NotImplementedError: if attrs: raise else: continue; retdict[name] = ret`;
+    NoSuchProcess (anything else) propagates. -/
+
+inductive GetRes | val | accessDenied | zombie | nsp | notImpl
+  deriving DecidableEq, Repr
+
+inductive DictRes
+  | dict (items : List (String × Bool))     -- key, and whether the value is `ad_value`
+  | nsp
+  | notImpl
+  deriving DecidableEq, Repr
+
+/-- `explicit` = the truthiness of `attrs` (False for `attrs=[]` / `None`: all names) -/
+def asDictVals (explicit : Bool) : List (String × GetRes) → List (String × Bool) → DictRes
+  | [], acc => .dict acc
+  | (nm, r) :: rest, acc =>
+    match r with
+    | .val => asDictVals explicit rest (acc ++ [(nm, false)])
+    | .accessDenied => asDictVals explicit rest (acc ++ [(nm, true)])
+    | .zombie => asDictVals explicit rest (acc ++ [(nm, true)])
+    | .nsp => .nsp
+    | .notImpl => if explicit then .notImpl else asDictVals explicit rest acc
+
+/-! ## two threads in the drain loop of the prologue
+
+    `while _pids_reused: pid = _pids_reused.pop(); remove(pid)` run by two threads on the ONE shared
+    set, at the granularity at which CPython can switch threads: the truth test and the `pop()` are
+    separate steps. `guarded` = the `pop()` is wrapped in `try/except KeyError: break` (fact
+    `popGuarded`). -/
+
+inductive DPc | test | pop | done | keyError
+  deriving DecidableEq, Repr
+
+structure DTh where
+  pc : DPc
+  removed : List Nat          -- PIDs this thread dropped from its private map
+  deriving DecidableEq, Repr
+
+def DTh.start : DTh := ⟨.test, []⟩
+
+/-- one step of one thread on the shared set -/
+def drainStep (guarded : Bool) (set : List Nat) (t : DTh) : List Nat × DTh :=
+  match t.pc with
+  | .test => if set.isEmpty then (set, { t with pc := .done }) else (set, { t with pc := .pop })
+  | .pop =>
+    match set with
+    | [] => (set, { t with pc := if guarded then .done else .keyError })      -- `pop from an empty set`
+    | p :: ps => (ps, ⟨.test, t.removed ++ [p]⟩)
+  | .done => (set, t)
+  | .keyError => (set, t)
+
+/-- a schedule: `false` = thread A makes a step, `true` = thread B -/
+def drainRun (guarded : Bool) : List Nat → DTh → DTh → List Bool → List Nat × DTh × DTh
+  | set, a, b, [] => (set, a, b)
+  | set, a, b, false :: rest => let (set', a') := drainStep guarded set a; drainRun guarded set' a' b rest
+  | set, a, b, true :: rest => let (set', b') := drainStep guarded set b; drainRun guarded set' a b' rest
 
 end Psutil.C04
